@@ -450,7 +450,7 @@ func runC11(p *eng.Prog, r *eng.Report, tier string) {
 			}
 		}
 	}
-	for _, name := range []string{"JID.MarshalXML", "JID.MarshalXMLAttr"} {
+	c11EncodersEmitString(c, "C11.7") {
 		f := c.fn("C11.7", "jid", name)
 		if f != nil {
 			c.r.Check("C11.7", f, "encodes String()", "P: XML encoding emits String()", f.Pos(), len(f.Calls("jid.JID.String")) == 1, "no call of String")
@@ -1250,4 +1250,12 @@ func c11IPLiteralsVerbatim(c *cx, id string) {
 		c.domAny(id, f, rs, "IP literal accepted [address family]", []string{"eq(net.IP.To4[net.ParseIP(*[1:*])](),nil)", "!eq(net.IP.To4[net.ParseIP(local:p0<string>)](),nil)", "!eq(net.IP.To4[net.ParseIP(p0)](),nil)"})
 	}
 	c.r.Floor(id, "IP literal short circuits in normalizeDomainpart", n, 2)
+}
+
+// c11EncodersEmitString (C11.7 / C13.35): the XML encoders of a JID emit
+// String() itself, whatever the shape of the address (a "no localpart" fast
+// path that emits the raw data drops the separator of a domain/resource
+// address: the to / from / by attributes of a stanza no longer round-trip).
+func c11EncodersEmitString(c *cx, id string) {
+	for _, name := range []string{"JID.MarshalXML", "JID.MarshalXMLAttr"}
 }
